@@ -43,7 +43,9 @@ func genC08(rt *rapid.T) C08Case {
 		if c.Outcome == "refuse" {
 			c.Code = []int{2, 3, 5, 6, 9, 12, 13, 16}[rapid.IntRange(0, 7).Draw(rt, "code")]
 		}
-		if !c.Sync && c.Outcome == "ok" {
+		if (!c.Sync && c.Outcome == "ok") || c.Outcome == "invalid" {
+			// also a request that fails validation behind earlier changes that are committed but cannot be
+			// applied yet: its failure is known at once and must be answered at once
 			c.Offline = rapid.IntRange(0, 3).Draw(rt, "offline") == 0
 		}
 	}
